@@ -59,14 +59,15 @@ func (r *BufferReader) Seek(offset int64, whence int) (int64, error) {
 }
 
 func (r *BufferReader) Skip(n int) error {
-	newPos := r.pos + n
-	if newPos < 0 {
-		return errors.New("encoding.BufferReader.Skip: negative position")
+	// n comes from a TLV length converted to int: a length >= 2^63 is negative here.
+	// Moving backwards would make a parser re-read the same element forever.
+	if n < 0 {
+		return errors.New("encoding.BufferReader.Skip: backward skipping is not allowed")
 	}
-	if newPos > len(r.buf) {
+	if n > len(r.buf)-r.pos {
 		return errors.New("encoding.BufferReader.Skip: position out of range")
 	}
-	r.pos = newPos
+	r.pos += n
 	return nil
 }
 
